@@ -31,6 +31,7 @@ type Inserter struct {
 	tbl         *objects.Table
 	asyncBlocks []asyncBlock
 	rowsCount   uint32
+	mu          sync.Mutex // guards asyncBlocks and rowsCount, shared by all workers
 	wg          sync.WaitGroup
 	errChan     chan error
 	blocks      <-chan *sorter.Block
@@ -86,7 +87,6 @@ func (i *Inserter) insertBlock() {
 			return
 		}
 		verifhook.Yield("inserter.afterSaveBlock")
-		i.rowsCount += uint32(blk.RowsCount)
 
 		// write block index and add pk sums to table index
 		idx, err := objects.IndexBlockFromBytes(dec, hash, e, blk.Block, i.tbl.PK)
@@ -103,12 +103,15 @@ func (i *Inserter) insertBlock() {
 		}
 		i.logger.Info("index block", "blockSum", sum, "indexSum", blkIdxSum)
 		verifhook.Yield("inserter.beforeAppend")
+		i.mu.Lock()
+		i.rowsCount += uint32(blk.RowsCount)
 		i.asyncBlocks = append(i.asyncBlocks, asyncBlock{
 			Offset: blk.Offset,
 			Sum:    sum,
 			IdxSum: blkIdxSum,
 			PK:     blk.PK,
 		})
+		i.mu.Unlock()
 		verifhook.Yield("inserter.afterAppend")
 		if i.pt != nil {
 			i.pt.Incr()
